@@ -3,7 +3,7 @@
    the column loop (induction on the fuel = remaining columns), one row with
    its trailing trim, the row loop, then the epilogue. *)
 From Coq Require Import ZArith List Bool Lia.
-From PTK Require Import Lib.Sx Lib.Py Model.C06_Terminal Model.C06_Renderer Proofs.C06_TermFacts.
+From PTK Require Import Lib.Sx Lib.Py Model.C06_Terminal Model.C06_Renderer Proofs.C06_TermFacts Proofs.C06_RowFacts.
 Import ListNotations.
 Open Scope Z_scope.
 
@@ -194,6 +194,28 @@ Proof.
     + auto.
 Qed.
 
+Lemma move_cursor_run : forall b2 t x y ls nx ny ls' ks,
+  Inv t (x, y) ls -> 0 <= nx -> 0 <= ny ->
+  move_cursor W (x, y) ls (nx, ny) = (ls', ks) ->
+  okrun (Z.max y ny) b2 W t ks.
+Proof.
+  intros b2 t x y ls nx ny ls' ks ((Cy & Cx & Cp & Cxr & Cyr) & PO & AW) Hnx Hny M.
+  cbn [fst snd] in *. unfold move_cursor in M.
+  destruct (y <? ny) eqn:E.
+  - inversion M; subst ls' ks; clear M. cbn [okrun tstep cy is_write].
+    split; [lia|]. split; [discriminate|].
+    apply okrun_app. split.
+    + apply okrun_crlf. cbn [cy]. lia.
+    + apply okrun_nondesc; [apply nondesc_cuf| |lia].
+      apply okrun_final with (b2 := b2); [cbn [cy]; lia|]. apply okrun_crlf. cbn [cy]. lia.
+  - inversion M; subst ls' ks; clear M.
+    apply okrun_nondesc; [|lia|lia].
+    apply Forall_app. split.
+    + destruct (ny <? y); [apply nondesc_cuu; lia|constructor].
+    + destruct (W - 1 <=? x); [constructor; [exact I|apply nondesc_cuf]|].
+      destruct (nx <? x); [apply nondesc_cub|]. destruct (x <? nx); [apply nondesc_cuf|constructor].
+Qed.
+
 Lemma put_narrow : forall t g,
   g <> [] -> pend t = false -> aw t = false -> tk (tgrid t (cy t) (cx t)) = 0 ->
   tgrid (tstep W t (TText g 1)) = upd (tgrid t) (cy t) (cx t) (mkcell g (pen t) 0) /\
@@ -279,6 +301,28 @@ Proof.
     rewrite G2. unfold cpen. rewrite T. reflexivity.
 Qed.
 
+Lemma draw_cell_run : forall b1 b2 t c y ls nc ls' ks,
+  Inv t (c, y) ls -> y <= b1 -> y <= b2 ->
+  (if is_transp nc then (@None Z, [TSGR 0; TText [32] 1]) else output_char tb ls nc) = (ls', ks) ->
+  okrun b1 b2 W t ks.
+Proof.
+  intros b1 b2 t c y ls nc ls' ks ((Cy & Cx & Cp & Cxr & Cyr) & PO & AW) H1 H2 O.
+  cbn [fst snd] in *.
+  assert (ONE : forall t0 g w, cy t0 = y -> pend t0 = false -> okrun b1 b2 W t0 [TText g w]).
+  { intros t0 g w Y0 P0. cbn [okrun]. rewrite text_cy by exact P0. split; [lia|]. split; [intros _; lia|exact I]. }
+  assert (TWO : forall p g w, okrun b1 b2 W t [TSGR p; TText g w]).
+  { intros p g w. cbn [okrun]. split; [cbn [tstep cy]; lia|]. split; [discriminate|].
+    apply (ONE (tstep W t (TSGR p)) g w); cbn [tstep cy pend]; auto. }
+  destruct (is_transp nc).
+  - inversion O; subst. apply TWO.
+  - unfold output_char in O.
+    destruct (match ls with Some s => s =? st nc | None => false end).
+    + inversion O; subst. apply ONE; auto.
+    + inversion O; subst.
+      destruct (ls_falsy ls || match ls with Some s => negb (sattr tb (st nc) =? sattr tb s) | None => true end);
+        cbn [app]; [apply TWO|apply ONE; auto].
+Qed.
+
 Lemma upd_other : forall g y x v y' x', (y' <> y \/ x' <> x) -> upd g y x v y' x' = g y' x'.
 Proof.
   intros. unfold upd. destruct ((y' =? y) && (x' =? x)) eqn:E; auto.
@@ -299,14 +343,17 @@ Lemma cols_ok : forall fuel y nr pr zw nmax c pos ls t pos' ls' ks,
   cols fuel tb W y nr pr zw nmax c pos ls = (pos', ls', ks) ->
   Inv (trun W t ks) pos' ls' /\ cvis (trun W t ks) = cvis t /\ undef (trun W t ks) = undef t /\
   (forall y' x, y' <> y \/ x < c \/ nmax < x -> tgrid (trun W t ks) y' x = tgrid t y' x) /\
-  (forall x, c <= x <= nmax -> shows (tgrid (trun W t ks) y x) (rget nr x)).
+  (forall x, c <= x <= nmax -> shows (tgrid (trun W t ks) y x) (rget nr x)) /\
+  okrun (Z.max (snd pos) y) y W t ks.
 Proof.
   induction fuel as [|f IH]; intros y nr pr zw nmax c pos ls t pos' ls' ks Hy Hn Hm Hc Hf HI HS C.
   - cbn [cols] in C. inversion C; subst. cbn [trun fold_left].
-    split; [exact HI|]. split; [reflexivity|]. split; [reflexivity|]. split; [auto|]. intros x Hx. lia.
+    split; [exact HI|]. split; [reflexivity|]. split; [reflexivity|]. split; [auto|].
+    split; [intros x Hx; lia|exact I].
   - cbn [cols] in C. destruct (nmax <? c) eqn:E.
     + inversion C; subst. cbn [trun fold_left].
-      split; [exact HI|]. split; [reflexivity|]. split; [reflexivity|]. split; [auto|]. intros x Hx. lia.
+      split; [exact HI|]. split; [reflexivity|]. split; [reflexivity|]. split; [auto|].
+      split; [intros x Hx; lia|exact I].
     + pose proof (rget_ncell nr c Hn) as (Hw & Hg).
       rewrite Hw in C. change (1 =? 0) with false in C. cbv iota in C.
       destruct (differs (rget nr c) (rget pr c)) eqn:D.
@@ -318,7 +365,7 @@ Proof.
         inversion C; subst pos' ls' ks; clear C.
         rewrite !trun_app.
         destruct (move_cursor_ok t px py ls c y ls1 k1 HI ltac:(lia) Hy M) as (I1 & (G1 & A1 & V1 & U1) & _).
-        set (t1 := trun W t k1) in *.
+        set (t1 := trun W t k1) in *. pose proof I1 as I1'.
         assert (Z1 : trun W t1 (match zget zw y c with Some i => [TRaw i] | None => [] end) = t1)
           by (destruct (zget zw y c); reflexivity).
         rewrite Z1.
@@ -329,21 +376,30 @@ Proof.
         assert (HS2 : forall x, c + 1 <= x <= nmax -> shows (tgrid t2 y x) (rget pr x)).
         { intros x Hx. rewrite G2, upd_other by lia. rewrite G1. apply HS. lia. }
         destruct (IH y nr pr zw nmax (c + 1) (c + 1, y) ls2 t2 p2 l2 k4 Hy Hn Hm ltac:(lia) ltac:(lia) I2 HS2 C2)
-          as (I3 & V3 & U3 & G3 & S3).
-        split; [exact I3|]. split; [congruence|]. split; [congruence|]. split.
+          as (I3 & V3 & U3 & G3 & S3 & O3).
+        split; [exact I3|]. split; [congruence|]. split; [congruence|]. split; [|split].
         { intros y' x Hx. rewrite G3 by lia. rewrite G2, upd_other by lia. rewrite G1. reflexivity. }
         { intros x Hx. destruct (Z.eq_dec x c) as [->|Ne].
           - rewrite G3 by lia. rewrite G2, upd_same. apply shows_written.
           - apply S3. lia. }
+        { cbn [fst snd] in *. destruct I1 as ((Cy1 & _) & _). cbn [snd] in Cy1.
+          apply okrun_app. split; [eapply move_cursor_run; eauto; lia|]. fold t1.
+          apply okrun_app. split.
+          - destruct (zget zw y c); [|exact I]. cbn [okrun tstep cy is_write].
+            split; [lia|]. split; [discriminate|exact I].
+          - rewrite Z1. apply okrun_app. split.
+            + eapply draw_cell_run; [exact (conj (conj Cy1 (proj2 (proj1 I1'))) (proj2 I1'))| | |exact O]; lia.
+            + fold t2. eapply okrun_mono; [| |exact O3]; lia. }
       * assert (HS2 : forall x, c + 1 <= x <= nmax -> shows (tgrid t y x) (rget pr x))
           by (intros x Hx; apply HS; lia).
         destruct (IH y nr pr zw nmax (c + 1) pos ls t pos' ls' ks Hy Hn Hm ltac:(lia) ltac:(lia) HI HS2 C)
-          as (I3 & V3 & U3 & G3 & S3).
-        split; [exact I3|]. split; [exact V3|]. split; [exact U3|]. split.
+          as (I3 & V3 & U3 & G3 & S3 & O3).
+        split; [exact I3|]. split; [exact V3|]. split; [exact U3|]. split; [|split].
         { intros y' x Hx. apply G3. lia. }
         { intros x Hx. destruct (Z.eq_dec x c) as [->|Ne].
           - rewrite G3 by lia. eapply shows_same; [exact D|]. apply HS. lia.
           - apply S3. lia. }
+        { exact O3. }
 Qed.
 
 Definition scell (s : screen) (y x : Z) : cell := rget (sget (srows s) y) x.
@@ -358,7 +414,8 @@ Lemma do_row_ok : forall y scr prev pos ls t pos' ls' ks,
   do_row tb W y scr prev pos ls = (pos', ls', ks) ->
   Inv (trun W t ks) pos' ls' /\ cvis (trun W t ks) = cvis t /\ undef (trun W t ks) = undef t /\
   (forall y' x, y' <> y -> tgrid (trun W t ks) y' x = tgrid t y' x) /\
-  (forall x, 0 <= x < W -> shows (tgrid (trun W t ks) y x) (scell scr y x)).
+  (forall x, 0 <= x < W -> shows (tgrid (trun W t ks) y x) (scell scr y x)) /\
+  okrun (Z.max (snd pos) y) y W t ks.
 Proof.
   intros y scr prev pos ls t pos' ls' ks Hy Hn HI HS R.
   unfold do_row in R.
@@ -370,8 +427,11 @@ Proof.
   assert (N0 : 0 <= nmax <= W - 1) by (subst nmax; lia).
   assert (HS0 : forall x, 0 <= x <= nmax -> shows (tgrid t y x) (rget pr x)) by (intros x Hx; apply HS; lia).
   destruct (cols_ok (Z.to_nat (nmax + 1)) y nr pr (szwe scr) nmax 0 pos ls t pos1 ls1 k1 Hy Hnr ltac:(lia) ltac:(lia) ltac:(lia) HI HS0 C)
-    as (I1 & V1 & U1 & G1 & S1).
+    as (I1 & V1 & U1 & G1 & S1 & O1).
   set (t1 := trun W t k1) in *.
+  assert (P1 : snd pos1 <= Z.max (snd pos) y).
+  { destruct I1 as ((C1 & _) & _). rewrite <- C1. apply okrun_final with (b2 := y); [|exact O1].
+    destruct HI as ((C0 & _) & _). lia. }
   destruct (nmax <? pmax) eqn:E.
   - destruct pos1 as [p1x p1y].
     destruct (move_cursor W (p1x, p1y) ls1 (nmax + 1, y)) as [lsx k2] eqn:M.
@@ -384,7 +444,11 @@ Proof.
     assert (K : tk (tgrid t2 y (nmax + 1)) = 0).
     { rewrite G2, G1 by lia. apply (HS (nmax + 1)). lia. }
     assert (GM : nmax = gmax tb nr) by (subst nmax; lia).
-    split; [|split; [|split; [|split]]].
+    split; [|split; [|split; [|split; [|split]]]]; cycle 5.
+    { apply okrun_app. split; [exact O1|]. fold t1. apply okrun_app. split.
+      - eapply okrun_mono; [| |eapply move_cursor_run with (b2 := y); [exact I1| | |exact M]; lia]; lia.
+      - fold t2. cbn [okrun tstep cy is_write]. split; [lia|]. split; [discriminate|].
+        split; [lia|]. split; [intros _; lia|exact I]. }
     + split; [|split]; [|exact I|exact AW2].
       unfold CurOK; cbn [cx cy pend fst snd]. split; [exact Cy|]. split; [exact Cx|]. split; [exact Cp|]. lia.
     + cbn [cvis]. congruence.
@@ -400,7 +464,8 @@ Proof.
       * apply notcounts_shows_blank; [|reflexivity]. apply gmax_spec. change (gmax tb nr < x). lia.
       * rewrite G2. apply S1. lia.
   - inversion R; subst pos' ls' ks; clear R. fold t1.
-    split; [exact I1|]. split; [exact V1|]. split; [exact U1|]. split.
+    split; [exact I1|]. split; [exact V1|]. split; [exact U1|]. split; [|split]; cycle 2.
+    { exact O1. }
     + intros y' x Hne. apply G1. auto.
     + intros x Hx. destruct (x <=? nmax) eqn:B.
       * apply S1. lia.
@@ -415,38 +480,51 @@ Qed.
 
 Lemma rows_loop_ok : forall n y scr prev pos ls t pos' ls' ks,
   0 <= y -> nscreen scr -> Inv t pos ls ->
-  (forall y' x, y <= y' -> 0 <= x < W -> shows (tgrid t y' x) (scell prev y' x)) ->
+  (forall y' x, y <= y' < y + Z.of_nat n -> 0 <= x < W -> shows (tgrid t y' x) (scell prev y' x)) ->
   rows_loop n tb W y scr prev pos ls = (pos', ls', ks) ->
   Inv (trun W t ks) pos' ls' /\ cvis (trun W t ks) = cvis t /\ undef (trun W t ks) = undef t /\
   (forall y' x, y' < y \/ y + Z.of_nat n <= y' -> tgrid (trun W t ks) y' x = tgrid t y' x) /\
-  (forall y' x, y <= y' < y + Z.of_nat n -> 0 <= x < W -> shows (tgrid (trun W t ks) y' x) (scell scr y' x)).
+  (forall y' x, y <= y' < y + Z.of_nat n -> 0 <= x < W -> shows (tgrid (trun W t ks) y' x) (scell scr y' x)) /\
+  okrun (Z.max (snd pos) (y + Z.of_nat n - 1)) (y + Z.of_nat n - 1) W t ks.
 Proof.
   induction n as [|n IH]; intros y scr prev pos ls t pos' ls' ks Hy Hn HI HS R.
   - cbn [rows_loop] in R. inversion R; subst. cbn [trun fold_left].
-    split; [exact HI|]. split; [reflexivity|]. split; [reflexivity|]. split; [auto|]. intros; lia.
+    split; [exact HI|]. split; [reflexivity|]. split; [reflexivity|]. split; [auto|].
+    split; [intros; lia|exact I].
   - cbn [rows_loop] in R.
     destruct (do_row tb W y scr prev pos ls) as [[pos1 ls1] k1] eqn:D.
     destruct (rows_loop n tb W (y + 1) scr prev pos1 ls1) as [[pos2 ls2] k2] eqn:R2.
     inversion R; subst pos' ls' ks; clear R. rewrite trun_app.
     destruct (do_row_ok y scr prev pos ls t pos1 ls1 k1 Hy Hn HI ltac:(intros x Hx; apply HS; lia) D)
-      as (I1 & V1 & U1 & G1 & S1).
+      as (I1 & V1 & U1 & G1 & S1 & O1).
     set (t1 := trun W t k1) in *.
-    assert (HS1 : forall y' x, y + 1 <= y' -> 0 <= x < W -> shows (tgrid t1 y' x) (scell prev y' x)).
+    assert (HS1 : forall y' x, y + 1 <= y' < y + 1 + Z.of_nat n -> 0 <= x < W -> shows (tgrid t1 y' x) (scell prev y' x)).
     { intros y' x Hy' Hx. rewrite G1 by lia. apply HS; lia. }
-    destruct (IH (y + 1) scr prev pos1 ls1 t1 pos2 ls2 k2 ltac:(lia) Hn I1 HS1 R2) as (I2 & V2 & U2 & G2 & S2).
-    split; [exact I2|]. split; [congruence|]. split; [congruence|]. split.
+    destruct (IH (y + 1) scr prev pos1 ls1 t1 pos2 ls2 k2 ltac:(lia) Hn I1 HS1 R2) as (I2 & V2 & U2 & G2 & S2 & O2).
+    assert (P1 : snd pos1 <= Z.max (snd pos) y).
+    { destruct I1 as ((C1 & _) & _). rewrite <- C1. apply okrun_final with (b2 := y); [|exact O1].
+      destruct HI as ((C0 & _) & _). lia. }
+    split; [exact I2|]. split; [congruence|]. split; [congruence|]. split; [|split].
     + intros y' x Hy'. rewrite G2 by lia. apply G1. lia.
     + intros y' x Hy' Hx. destruct (Z.eq_dec y' y) as [->|Ne].
       * rewrite G2 by lia. apply S1. exact Hx.
       * apply S2; lia.
+    + apply okrun_app. split.
+      * eapply okrun_mono; [| |exact O1]; lia.
+      * fold t1. eapply okrun_mono; [| |exact O2]; lia.
 Qed.
 
+(* Screen.height may exceed the terminal height H (a float reaching below the
+   last row): only rows < H are drawn.  The cursor is inside the terminal. *)
 Definition wf_screen (H : Z) (s : screen) : Prop :=
-  nscreen s /\ 0 <= sh s <= H /\ (forall y, sh s <= y -> sget (srows s) y = []) /\
-  0 <= scx s <= W - 1 /\ 0 <= scy s.
+  nscreen s /\ 0 <= sh s /\ (forall y, sh s <= y -> sget (srows s) y = []) /\
+  0 <= scx s <= W - 1 /\ 0 <= scy s < Z.max H 1.
 
-Definition Shows (t : term) (s : screen) : Prop :=
-  forall y x, 0 <= y -> 0 <= x < W -> shows (tgrid t y x) (scell s y x).
+(* the part of the screen that fits the terminal *)
+Definition vcell (H : Z) (s : screen) (y x : Z) : cell := if y <? H then scell s y x else dcell.
+
+Definition Shows (H : Z) (t : term) (s : screen) : Prop :=
+  forall y x, 0 <= y -> 0 <= x < W -> shows (tgrid t y x) (vcell H s y x).
 
 Lemma shows_blank_dcell : shows (blank 0) dcell.
 Proof.
@@ -458,52 +536,71 @@ Proof. intros H s y x (_ & _ & E & _) Hy. unfold scell. rewrite E by exact Hy. r
 
 (* everything after the full-repaint decision *)
 Lemma diff_body_ok : forall H fs done scr prev pos ls t pos' cv' ks,
-  wf_screen H scr -> wf_screen H prev -> Inv t pos ls -> Shows t prev -> cvis t = false ->
+  0 <= H -> wf_screen H scr -> wf_screen H prev -> Inv t pos ls -> Shows H t prev -> cvis t = false ->
   (done = true -> sh prev = 0 /\ pen t = 0) ->
   diff_body tb W H fs done scr prev pos ls (Some false) = (pos', cv', ks) ->
   let t' := trun W t ks in
   let cur_h := Z.min (sh scr) H in
   undef t' = undef t /\
   (done = false -> forall y x, Z.max (sh scr) (sh prev) <= y -> tgrid t' y x = tgrid t y x) /\
+  okrun (Z.max (Z.max (snd pos) (Z.min (Z.max (sh scr) (sh prev)) H - 1)) (if done then cur_h else scy scr))
+        (Z.min (Z.max (sh scr) (sh prev)) H - 1) W t ks /\
   pen t' = 0 /\ pend t' = false /\ aw t' = (done || negb fs) /\
   cvis t' = sshow scr /\ cv' = Some (sshow scr) /\
   cx t' = fst pos' /\ cy t' = snd pos' /\
-  (done = false -> pos' = (scx scr, scy scr) /\ Shows t' scr) /\
+  (done = false -> pos' = (scx scr, scy scr) /\ Shows H t' scr) /\
   (done = true -> pos' = (0, cur_h) /\
      (forall y x, 0 <= y < cur_h -> 0 <= x < W -> shows (tgrid t' y x) (scell scr y x)) /\
      (forall y x, cur_h <= y -> 0 <= x -> tgrid t' y x = blank 0)).
 Proof.
-  intros H fs done scr prev pos ls t pos' cv' ks Ws Wp HI HS CV HD D.
+  intros H fs done scr prev pos ls t pos' cv' ks HH Ws Wp HI HS CV HD D.
   pose proof Ws as (Ns & Hs & Es & Cxs & Cys). pose proof Wp as (_ & Hp & Ep & _).
   unfold diff_body in D.
   set (cur_h := Z.min (sh scr) H) in *.
   set (rc := Z.min (Z.max (sh scr) (sh prev)) H) in *.
   destruct (rows_loop (Z.to_nat rc) tb W 0 scr prev pos ls) as [[pos1 ls1] k1] eqn:R.
-  destruct (rows_loop_ok _ 0 scr prev pos ls t pos1 ls1 k1 ltac:(lia) Ns HI
-              ltac:(intros y' x Hy' Hx; apply HS; lia) R) as (I1 & V1 & U1 & G1 & S1).
+  destruct (rows_loop_ok (Z.to_nat rc) 0 scr prev pos ls t pos1 ls1 k1 ltac:(lia) Ns HI
+              ltac:(intros y' x Hy' Hx; specialize (HS y' x ltac:(lia) Hx); unfold vcell in HS;
+                    destruct (y' <? H) eqn:BH; [exact HS|subst rc; lia]) R) as (I1 & V1 & U1 & G1 & S1 & O1).
   set (t1 := trun W t k1) in *.
-  assert (RC : rc = Z.max (sh scr) (sh prev)) by (subst rc; lia).
-  assert (SH1 : Shows t1 scr).
+  assert (RC : rc <= H /\ (rc < H -> rc = Z.max (sh scr) (sh prev))) by (subst rc; lia).
+  assert (SH1 : Shows H t1 scr).
   { intros y x Hy Hx. destruct (y <? rc) eqn:B.
-    - apply S1; lia.
-    - rewrite G1 by lia. rewrite (scell_beyond H scr) by (auto; lia).
-      rewrite <- (scell_beyond H prev y x) by (auto; lia). apply HS; lia. }
+    - unfold vcell. destruct (y <? H) eqn:BH; [|lia]. apply S1; lia.
+    - rewrite G1 by lia. specialize (HS y x Hy Hx). unfold vcell in *.
+      destruct (y <? H) eqn:BH; [|exact HS].
+      rewrite (scell_beyond H scr) by (auto; lia).
+      rewrite (scell_beyond H prev y x) in HS by (auto; lia). exact HS. }
   (* reserve vertical space *)
   set (mv := if sh prev <? cur_h
              then let '(l, t) := move_cursor W pos1 ls1 (0, cur_h - 1) in ((0, cur_h - 1), l, t)
              else (pos1, ls1, [])) in *.
   destruct mv as [[pos2 ls2] k2] eqn:MV.
+  assert (RC0 : Z.of_nat (Z.to_nat rc) = rc) by (subst rc; lia).
+  assert (CH : cur_h <= rc) by (subst cur_h rc; lia).
+  assert (P1 : snd pos1 <= Z.max (snd pos) (rc - 1)).
+  { destruct I1 as ((C1 & _) & _). rewrite <- C1. apply okrun_final with (b2 := rc - 1).
+    - destruct HI as ((C0 & _) & _). lia.
+    - eapply okrun_mono; [| |exact O1]; lia. }
   assert (M2 : (Inv (trun W t1 k2) pos2 ls2 /\ sbcp t1 (trun W t1 k2)) /\
                ((sh prev <? cur_h) = true -> pos2 = (0, cur_h - 1)) /\
-               ((sh prev <? cur_h) = false -> k2 = [])).
+               ((sh prev <? cur_h) = false -> k2 = []) /\
+               okrun (Z.max (snd pos1) (cur_h - 1)) (rc - 1) W t1 k2 /\
+               snd pos2 <= Z.max (snd pos1) (cur_h - 1)).
   { subst mv. destruct (sh prev <? cur_h) eqn:B.
     - destruct pos1 as [p1x p1y]. destruct (move_cursor W (p1x, p1y) ls1 (0, cur_h - 1)) as [l k] eqn:M.
       inversion MV; subst pos2 ls2 k2; clear MV.
       destruct (move_cursor_ok t1 p1x p1y ls1 0 (cur_h - 1) l k I1 ltac:(lia) ltac:(lia) M) as (I2 & SB & _).
-      split; [auto|]. split; [reflexivity|discriminate].
+      split; [auto|]. split; [reflexivity|]. split; [discriminate|]. split; [|cbn [snd]; lia].
+      eapply move_cursor_run; [exact I1| | |exact M]; lia.
     - inversion MV; subst pos2 ls2 k2; clear MV. cbn [trun fold_left].
-      split; [split; [exact I1|apply sbcp_refl]|]. split; [discriminate|reflexivity]. }
-  destruct M2 as ((I2 & (G2 & A2 & V2 & U2)) & MVa & MVb). set (t2 := trun W t1 k2) in *.
+      split; [split; [exact I1|apply sbcp_refl]|]. split; [discriminate|]. split; [reflexivity|].
+      split; [exact I|lia]. }
+  destruct M2 as ((I2 & (G2 & A2 & V2 & U2)) & MVa & MVb & O2 & P2). set (t2 := trun W t1 k2) in *.
+  assert (OK12 : forall tgt, okrun (Z.max (Z.max (snd pos) (rc - 1)) tgt) (rc - 1) W t (k1 ++ k2)).
+  { intros tgt. apply okrun_app. split.
+    - eapply okrun_mono; [| |exact O1]; lia.
+    - eapply okrun_mono; [| |exact O2]; lia. }
   destruct I1 as (_ & _ & AW1).
   destruct pos2 as [p2x p2y].
   destruct done.
@@ -514,14 +611,24 @@ Proof.
     destruct (move_cursor_ok t2 p2x p2y ls2 0 cur_h l3 k3 I2 ltac:(lia) ltac:(lia) M3)
       as (((Cy & Cx & Cp & _) & _ & AW3) & (G3 & A3 & V3 & U3) & X3 & PD & PS).
     cbn [fst snd] in *.
+    assert (OKR : okrun (Z.max (Z.max (snd pos) (rc - 1)) cur_h) (rc - 1) W t
+                    (k1 ++ k2 ++ (k3 ++ [TED]) ++ TAW true :: TSGR 0 :: k5)).
+    { rewrite app_assoc. apply okrun_app. split; [apply OK12|].
+      rewrite trun_app. fold t1. fold t2. apply okrun_app. split.
+      - apply okrun_app. split.
+        + eapply okrun_mono; [| |eapply move_cursor_run with (b2 := rc - 1); [exact I2| | |exact M3]; lia]; lia.
+        + cbn [okrun tstep cy is_write]. split; [lia|]. split; [discriminate|exact I].
+      - apply okrun_nondesc; [| |subst cur_h; lia].
+        + destruct (sshow scr); cbn in SC; inversion SC; subst; repeat constructor.
+        + rewrite trun_app. cbn [trun fold_left tstep cy]. lia. }
     destruct (HD eq_refl) as (P0 & PT).
     assert (PEN3 : pen (trun W t2 k3) = 0).
     { destruct (Z_lt_le_dec p2y cur_h) as [Lt|Le]; [apply PD; exact Lt|].
       destruct (PS Le) as (PS1 & _). rewrite PS1.
       destruct (sh prev <? cur_h) eqn:B.
       - specialize (MVa eq_refl). inversion MVa. lia.
-      - assert (RC0 : Z.to_nat rc = 0%nat) by lia.
-        rewrite RC0 in R. cbn [rows_loop] in R. inversion R. subst pos1 ls1 k1.
+      - assert (RCZ : Z.to_nat rc = 0%nat) by lia.
+        rewrite RCZ in R. cbn [rows_loop] in R. inversion R. subst pos1 ls1 k1.
         subst t2 t1. rewrite (MVb eq_refl). cbn [trun fold_left]. exact PT. }
     rewrite !trun_app. fold t1. fold t2. set (t3 := trun W t2 k3) in *.
     assert (TAIL : forall tt, trun W tt (TAW true :: TSGR 0 :: k5) =
@@ -529,7 +636,7 @@ Proof.
     { intros tt. destruct (sshow scr); cbn in SC; inversion SC; subst; cbn; auto. }
     destruct (TAIL (trun W t3 [TED])) as (TE & CVE). rewrite TE.
     cbn [trun fold_left tstep tgrid cx cy pen aw cvis pend undef orb].
-    split; [congruence|]. split; [discriminate|]. split; [reflexivity|]. split; [exact Cp|]. split; [reflexivity|].
+    split; [congruence|]. split; [discriminate|]. split; [exact OKR|]. split; [reflexivity|]. split; [exact Cp|]. split; [reflexivity|].
     split; [rewrite V3, V2, V1, CV; destruct (sshow scr); reflexivity|]. split; [exact CVE|].
     split; [exact X3|]. split; [exact Cy|]. split; [discriminate|].
     intros _. split; [reflexivity|]. split.
@@ -542,7 +649,8 @@ Proof.
       { intros g <-. destruct (tk (tgrid t3 (cy t3) (cx t3)) =? 2); [|reflexivity].
         unfold boh. destruct (tk (tgrid t3 (cy t3) (cx t3)) =? 1); [apply upd_other; lia|].
         destruct (tk (tgrid t3 (cy t3) (cx t3)) =? 2); [apply upd_other; lia|reflexivity]. }
-      rewrite (GG _ eq_refl). rewrite G3, G2. apply SH1; lia.
+      rewrite (GG _ eq_refl). rewrite G3, G2. specialize (SH1 y x ltac:(lia) Hx). unfold vcell in SH1.
+      destruct (y <? H) eqn:BH; [exact SH1|lia].
     + intros y x Hy Hx. unfold erase_down, erase_line. rewrite PEN3.
       destruct (cy t3 <? y) eqn:B1; [reflexivity|].
       assert (y = cy t3) by lia. subst y. rewrite Z.eqb_refl. rewrite X3.
@@ -554,6 +662,14 @@ Proof.
     destruct (move_cursor_ok t2 p2x p2y ls2 (scx scr) (scy scr) l3 k3 I2 ltac:(lia) ltac:(lia) M3)
       as (((Cy & Cx & Cp & _) & _ & AW3) & (G3 & A3 & V3 & U3) & X3 & _).
     cbn [fst snd] in *.
+    assert (OKR : okrun (Z.max (Z.max (snd pos) (rc - 1)) (scy scr)) (rc - 1) W t
+                    (k1 ++ k2 ++ k3 ++ (if negb fs then [TAW true] else []) ++ TSGR 0 :: k5)).
+    { rewrite app_assoc. apply okrun_app. split; [apply OK12|].
+      rewrite trun_app. fold t1. fold t2. apply okrun_app. split.
+      - eapply okrun_mono; [| |eapply move_cursor_run with (b2 := rc - 1); [exact I2| | |exact M3]; lia]; lia.
+      - apply okrun_nondesc; [| |lia].
+        + destruct (sshow scr); cbn in SC; inversion SC; subst; destruct fs; repeat constructor.
+        + lia. }
     rewrite !trun_app. fold t1. fold t2. set (t3 := trun W t2 k3) in *.
     assert (TAIL : forall tt, trun W (trun W tt (if negb fs then [TAW true] else [])) (TSGR 0 :: k5) =
               mkterm (tgrid tt) (cx tt) (cy tt) 0 (if negb fs then true else aw tt) (sshow scr || cvis tt)
@@ -563,6 +679,7 @@ Proof.
     cbn [tgrid cx cy pen aw cvis pend undef].
     split; [congruence|].
     split; [intros _ y x Hy; rewrite G3, G2; apply G1; lia|].
+    split; [exact OKR|].
     split; [reflexivity|]. split; [exact Cp|].
     split; [rewrite AW3; destruct fs; reflexivity|].
     split; [rewrite V3, V2, V1, CV; destruct (sshow scr); reflexivity|]. split; [exact CVE|].
@@ -585,7 +702,7 @@ Definition Rendered (H : Z) (fs done : bool) (scr : screen) (t : term) (pos : Z 
   let cur_h := Z.min (sh scr) H in
   pen t = 0 /\ pend t = false /\ aw t = (done || negb fs) /\
   cvis t = sshow scr /\ cv = Some (sshow scr) /\ cx t = fst pos /\ cy t = snd pos /\
-  (done = false -> pos = (scx scr, scy scr) /\ Shows t scr) /\
+  (done = false -> pos = (scx scr, scy scr) /\ Shows H t scr) /\
   (done = true -> pos = (0, cur_h) /\
      (forall y x, 0 <= y < cur_h -> 0 <= x < W -> shows (tgrid t y x) (scell scr y x)) /\
      (forall y x, cur_h <= y -> 0 <= x -> tgrid t y x = blank 0)).
@@ -596,12 +713,16 @@ Lemma screen_diff_ok : forall H fs done scr prev pos prevW cv t pos' cv' ks,
   cvrel cv t ->
   match prev with
   | None => True
-  | Some p => wf_screen H p /\ Shows t p /\ pen t = 0 /\ (fs = true -> aw t = false)
+  | Some p => wf_screen H p /\ Shows H t p /\ pen t = 0 /\ (fs = true -> aw t = false)
   end ->
   screen_diff tb W H fs done scr prev pos None prevW cv = (pos', cv', ks) ->
   undef (trun W t ks) = undef t /\ Rendered H fs done scr (trun W t ks) pos' cv' /\
   (forall p, prev = Some p -> done = false -> prevW = W ->
-     forall y x, Z.max (sh scr) (sh p) <= y -> tgrid (trun W t ks) y x = tgrid t y x).
+     forall y x, Z.max (sh scr) (sh p) <= y -> tgrid (trun W t ks) y x = tgrid t y x) /\
+  (* rows visited / written: b bounds the cursor row throughout, the second bound the rows written *)
+  (forall b, snd pos <= b -> (if done then Z.min (sh scr) H else scy scr) <= b ->
+     Z.min (Z.max (sh scr) (match prev with Some p => sh p | None => 0 end)) H - 1 <= b -> 0 <= b ->
+     okrun b (Z.min (Z.max (sh scr) (match prev with Some p => sh p | None => 0 end)) H - 1) W t ks).
 Proof.
   intros H fs done scr prev pos prevW cv t pos' cv' ks HH Ws Cx Cy Cxr Cyr Cp CV HP D.
   unfold screen_diff in D.
@@ -629,6 +750,15 @@ Proof.
   set (ta := trun W t (k0 ++ k1 ++ k2)) in *.
   assert (Ia : Inv ta pos None).
   { split; [|split; [exact I|exact Aa]]. unfold CurOK. split; [congruence|]. split; [lia|]. split; [exact Pa|]. lia. }
+  assert (OKP : forall b b2, snd pos <= b -> 0 <= b -> okrun b b2 W t (k0 ++ k1 ++ k2)).
+  { intros b b2 Hb Hb0. apply okrun_nondesc; [|lia|exact Hb0].
+    apply Forall_app. split; [|apply Forall_app; split].
+    - unfold hide_cursor in HC. destruct cv as [[|]|]; inversion HC; subst; repeat constructor.
+    - destruct (is_none prev); inversion K1; subst; repeat constructor.
+    - subst k2. destruct (is_none prev || negb fs); repeat constructor. }
+  assert (SHP : 0 <= match prev with Some p => sh p | None => 0 end).
+  { destruct prev as [p|]; [|lia]. destruct HP as ((_ & Hp0 & _) & _). lia. }
+  pose proof Ws as (_ & Hs0 & _).
   destruct (done || is_none prev || negb (prevW =? W)) eqn:FULL.
   - destruct pos as [px py].
     destruct (move_cursor W (px, py) None (0, 0)) as [lx k3] eqn:M.
@@ -648,17 +778,28 @@ Proof.
     destruct TC as (Gc & Xc & Yc & Nc & Ac & Vc & Pc & Uc).
     assert (Ic : Inv tc (0, 0) None).
     { split; [|split; [exact I|exact Ac]]. unfold CurOK; cbn [fst snd]. split; [exact Yc|]. split; [lia|]. split; [exact Pc|]. lia. }
-    assert (Sc : Shows tc empty_screen).
+    assert (Sc : Shows H tc empty_screen).
     { intros y x Hy Hx. rewrite Gc. unfold erase_down, erase_line. cbn [tstep cx cy pen tgrid].
-      rewrite Xb, Cyb. unfold scell, empty_screen; cbn [srows sget rget].
+      rewrite Xb, Cyb.
+      assert (VE : vcell H empty_screen y x = dcell) by (unfold vcell; destruct (y <? H); reflexivity).
+      rewrite VE.
       destruct (0 <? y) eqn:B; [apply shows_blank_dcell|].
       assert (y = 0) by lia. subst y. rewrite Z.eqb_refl. destruct (0 <=? x) eqn:B2; [|lia].
       cbn [andb]. apply shows_blank_dcell. }
-    pose proof (diff_body_ok H fs done scr empty_screen (0, 0) None tc p3 c3 k4 Ws (wf_empty H HH) Ic Sc Vc
+    pose proof (diff_body_ok H fs done scr empty_screen (0, 0) None tc p3 c3 k4 HH Ws (wf_empty H HH) Ic Sc Vc
                   ltac:(intros _; split; [reflexivity|exact Nc]) DB) as R.
-    cbv zeta in R. destruct R as (U4 & _ & R).
-    split; [congruence|]. split; [unfold Rendered; exact R|].
-    intros p EP ED EW. subst prev done prevW. cbn [is_none orb] in FULL. rewrite Z.eqb_refl in FULL. discriminate.
+    cbv zeta in R. destruct R as (U4 & _ & OKB & R).
+    split; [congruence|]. split; [unfold Rendered; exact R|]. split.
+    { intros p EP ED EW. subst prev done prevW. cbn [is_none orb] in FULL. rewrite Z.eqb_refl in FULL. discriminate. }
+    intros b B1 B2 B3 B0.
+    replace (k0 ++ k1 ++ k2 ++ (k3 ++ [TSGR 0; TED]) ++ k4)
+      with ((k0 ++ k1 ++ k2) ++ k3 ++ [TSGR 0; TED] ++ k4) by (rewrite <- !app_assoc; reflexivity).
+    apply okrun_app. split; [apply OKP; auto|]. fold ta.
+    apply okrun_app. split.
+    { eapply okrun_mono; [| |eapply move_cursor_run; [exact Ia| | |exact M]; lia]; [lia|apply Z.le_refl]. }
+    fold tb3. apply okrun_app. split.
+    { apply okrun_nondesc; [repeat constructor|lia|exact B0]. }
+    fold tc. cbn [sh empty_screen snd] in OKB. eapply okrun_mono; [| |exact OKB]; lia.
   - destruct prev as [p|]; [|rewrite orb_true_r in FULL; discriminate].
     cbn [is_none] in FULL. apply orb_false_iff in FULL. destruct FULL as [F1 _].
     apply orb_false_iff in F1. destruct F1 as [F1 _]. subst done.
@@ -667,11 +808,15 @@ Proof.
     inversion D; subst pos' cv' ks; clear D.
     replace (k0 ++ k1 ++ k2 ++ k4) with ((k0 ++ k1 ++ k2) ++ k4) by (rewrite <- !app_assoc; reflexivity).
     rewrite trun_app. fold ta.
-    assert (Sa : Shows ta p) by (intros y x Hy Hx; rewrite Ga; apply Sp; auto).
-    pose proof (diff_body_ok H fs false scr p pos None ta p3 c3 k4 Ws Wp Ia Sa Va ltac:(discriminate) DB) as R.
-    cbv zeta in R. destruct R as (U4 & FR & R).
-    split; [congruence|]. split; [unfold Rendered; exact R|].
-    intros p' EP _ _ y x Hy. inversion EP; subst p'. rewrite (FR eq_refl y x Hy). rewrite Ga. reflexivity.
+    assert (Sa : Shows H ta p) by (intros y x Hy Hx; rewrite Ga; apply Sp; auto).
+    pose proof (diff_body_ok H fs false scr p pos None ta p3 c3 k4 HH Ws Wp Ia Sa Va ltac:(discriminate) DB) as R.
+    cbv zeta in R. destruct R as (U4 & FR & OKB & R).
+    split; [congruence|]. split; [unfold Rendered; exact R|]. split.
+    { intros p' EP _ _ y x Hy. inversion EP; subst p'. rewrite (FR eq_refl y x Hy). rewrite Ga. reflexivity. }
+    intros b B1 B2 B3 B0.
+    replace (k0 ++ k1 ++ k2 ++ k4) with ((k0 ++ k1 ++ k2) ++ k4) by (rewrite <- !app_assoc; reflexivity).
+    apply okrun_app. split; [apply OKP; auto|]. fold ta.
+    eapply okrun_mono; [| |exact OKB]; lia.
 Qed.
 
 End Diff.
